@@ -84,52 +84,8 @@ func codeBytes(c uint32, w int) []byte {
 }
 
 func buildEntry(kind string, slot, w int) entry {
-	e := entry{kind: kind, n: 1}
-	low := slotLow1[slot]
-	if kind == "rE" {
-		low = 0xFD
-		if w == 1 {
-			low = 0xFD - 3*uint32(slot)
-		}
-	}
-	e.lo = slotPrefix[w][slot]<<8 | low
-	if w == 1 {
-		e.lo = low
-	}
-	var targets []string
-	switch kind {
-	case "cB":
-		targets = []string{"€"}
-	case "cL":
-		targets = []string{"ffi"}
-	case "cD":
-		targets = []string{"é"}
-	case "cS":
-		targets = []string{"\U0001D400"}
-	case "rO":
-		targets = []string{"Α", "Β", "Γ"}
-	case "rE":
-		targets = []string{"⇽", "⇾", "⇿"}
-	case "rA":
-		targets = []string{"א", "fi", "\U0001D401"}
-	case "rL":
-		targets = []string{"fi", "fj", "fk"}
-	case "cM":
-		targets = []string{"x\U0001D400"}
-	case "cQ":
-		targets = []string{"f\U0001D400i"}
-	case "rT":
-		targets = []string{"ffi", "ffj", "ffk"}
-	case "rM":
-		targets = []string{"f\U0001D410", "f\U0001D411", "f\U0001D412"}
-	case "rQ":
-		targets = []string{"\U0001D400fi", "\U0001D400fj", "\U0001D400fk"}
-	case "rB":
-		targets = []string{"ffi", "x\U0001D401", "f\U0001D402i"}
-	case "rS":
-		targets = []string{"\U0001D410", "\U0001D411", "\U0001D412"}
-	}
-	// distinct targets per slot so that a lookup that lands in the wrong entry is visible: shift BMP singles
+	targets := kindTargets(kind)
+	// distinct targets per slot so that a lookup that lands in the wrong entry is visible: shift the last character
 	if slot > 0 {
 		for i, t := range targets {
 			r := []rune(t)
@@ -142,11 +98,73 @@ func buildEntry(kind string, slot, w int) entry {
 			targets[i] = string(r)
 		}
 	}
+	return makeEntry(kind, slot, w, targets)
+}
+
+func kindTargets(kind string) []string {
+	switch kind {
+	case "cB":
+		return []string{"€"}
+	case "cL":
+		return []string{"ffi"}
+	case "cD":
+		return []string{"e\u0301"}
+	case "cS":
+		return []string{"\U0001D400"}
+	case "rO":
+		return []string{"Α", "Β", "Γ"}
+	case "rE":
+		return []string{"⇽", "⇾", "⇿"}
+	case "rA":
+		return []string{"א", "fi", "\U0001D401"}
+	case "rL":
+		return []string{"fi", "fj", "fk"}
+	case "cM":
+		return []string{"x\U0001D400"}
+	case "cQ":
+		return []string{"f\U0001D400i"}
+	case "rT":
+		return []string{"ffi", "ffj", "ffk"}
+	case "rM":
+		return []string{"f\U0001D410", "f\U0001D411", "f\U0001D412"}
+	case "rQ":
+		return []string{"\U0001D400fi", "\U0001D400fj", "\U0001D400fk"}
+	case "rB":
+		return []string{"ffi", "x\U0001D401", "f\U0001D402i"}
+	case "rS":
+		return []string{"\U0001D410", "\U0001D411", "\U0001D412"}
+	}
+	panic("unknown entry kind " + kind)
+}
+
+// makeEntry builds the entry of the given form (the kind decides bfchar / bfrange offset / bfrange
+// array) for explicit targets. For the offset form targets[i] must be targets[0] with its last
+// UTF-16 unit incremented by i.
+func makeEntry(kind string, slot, w int, targets []string) entry {
+	e := entry{kind: kind, n: 1}
+	low := slotLow1[slot]
+	if kind == "rE" {
+		low = 0xFD
+		if w == 1 {
+			low = 0xFD - 3*uint32(slot)
+		}
+	}
+	e.lo = slotPrefix[w][slot]<<8 | low
+	if w == 1 {
+		e.lo = low
+	}
 	e.n = len(targets)
 	e.start = u16(targets[0])
 	if isArrayKind(kind) {
 		for _, t := range targets {
 			e.array = append(e.array, u16(t))
+		}
+	} else if isRange(kind) {
+		for i, t := range targets {
+			u := u16(t)
+			if len(u) != len(e.start) || u[len(u)-1] != e.start[len(u)-1]+uint16(i) {
+				panic("offset-form targets are not consecutive in the last unit: " + kind)
+			}
 		}
 	}
 	for i, t := range targets {
